@@ -473,39 +473,7 @@ def _algo_claim(pid, text, note, technique, ref):
 
 _claim_saved = claim
 claim = _algo_claim
-# claim text for the algorithm layer (check id ALGO; serves C01 and C03).  harness/manifest_gen.py is not edited here: the
-# coordinator pastes this call (or folds the two strings into the C01 / C03 claims).
-claim("ALGO",
-      "Coq development (no axioms; every theorem of PropAlgo.v is closed under the global context) about AlgoModel.v: the engine's own closed "
-      "loop - EventManager.do/_process_event -> SyncState.update; SyncState.change (path-filling loop, ageing-0 threshold, sorted pick); "
-      "SyncManager.pre_sync / sync / embrace_change / handle_path_change_or_creation / create_synced / upload_synced / handle_hash_diff / "
-      "delete_synced / handle_rename / mkdir_synced / finished / punt / update_entry / get_latest - transcribed branch by branch over two ProvModel "
-      "providers, one StateModel sync state, a virtual clock and per-side event cursors; every branch outside the fragment answers an explicit "
-      "OutOfFragment code (28 codes). Fragments F1 (files in the root: create/write/delete), F2 (+rename), F3 (+mkdir, punting), each with a "
-      "decidable domain predicate in_Fk over user histories. PROVED on F1, from EVERY world satisfying the coupling invariant Inv (state <-> both "
-      "providers <-> pending events; owner/mirror clauses replace DESIGN's 'equal sync_hashes', which is false) and for ALL arguments: the "
-      "initial world satisfies Inv for every clock reading (ALGO_inv_initial); a whole event-intake pass keeps Inv (ALGO_inv_intake); get_latest "
-      "keeps it and makes both sides current-or-pending (ALGO_inv_get_latest, ALGO_inv_refresh_both); each state-changing leaf of sync() keeps it "
-      "- clearing an unneeded change, finished, punt, download of a deleted file, create_synced, upload_synced, delete_synced - and create / "
-      "upload / delete are shown to succeed, to leave the origin provider untouched and to leave hash = sync_hash (7 theorems); Inv + no pending "
-      "event + empty change set => the two root-relative trees are equal (ALGO_quiescent_equal_under_inv). REFUTED at full strength, kept as a "
-      "theorem with a vm_compute witness replayed on the real engine: a one-sided history of 4 operations that writes a content to a file twice "
-      "ends quiescent with different contents (ALGO_quiescent_equal_full_refuted = open finding A-1, stale sync_hash; patch proposed in "
-      "notes/ALGO_findings.md); the domain therefore requires a written content to be new for its file. NOT yet proved (tied only): the assembly "
-      "of the leaf theorems into one theorem about sync_step, user operations, and hence the run-level statements (inv_reachable, quiescent_equal "
-      "over runs, never_out_of_fragment, origin_untouched, echo_absorbed, progress bound, refinement of Monitor.v); F2/F3 invariants. "
-      "Tie: seeded in-domain histories x random schedules (user ops, single intake / sync steps with random change-set order, drains) run on the "
-      "REAL engine and on the extracted model; after EVERY action all entries (oid, path, hash, sync_path, sync_hash, exists, exact changed stamp, "
-      "_last_gotten, temp file, ignore reason, priority), the change set, both provider object tables with cursors, and the engine-issued provider "
-      "calls of the step are equal; in_Fk holds for every generated history; 0 OutOfFragment answers; executable invariant evaluated on every "
-      "level-1 state. Quick: 480 runs / ~21 000 states; thorough: 26 000 runs; corpus of 11 cases incl. both A-1 witnesses.",
-      "Trusted: Coq kernel, extraction (ExtrOcamlBasic) + OCaml driver, harness/engine.py (virtual clock, serial ids), the abstraction function "
-      "of c01_algo.py, MockProvider as the world (ProvModel, tied by C16), StateModel (tied by C11), SchedModel (C17), PathModel (C13). The initial "
-      "world is a constant of the model compared with the real state at the start of every run. Not modelled: threads, storage, real clocks "
-      "(clock readings and set iteration orders are schedule inputs), exceptions escaping a step, providers other than id-stable case-sensitive "
-      "unfiltered MockProviders, anything answering OutOfFragment (conflicts, path-style ids, filters, non-empty folder deletes, the split guard "
-      "of bbf04b7/0292e7f). The proved theorems are about F1 only.",
-      PURE_TECH, "DESIGN.md §1.2, §3.3, §4.3; notes/ALGO_design.md")
+exec(open(os.path.join(VERIF, "notes", "ALGO_claim.py")).read())      # the builder keeps that file current
 
 claim = _claim_saved
 for _pid in ("C01", "C03"):
